@@ -39,6 +39,8 @@ func runC05(c *Ctx) {
 	// the multipart/mixed flush ticker is stopped on every exit: aggregator.Done is deferred (C12/terminal-once)
 	c12TerminalOnce(c)
 	locksReleased(c, pkgTransport, pkgGraphql, pkgExecutor, pkgHandler)
+	deferredReceiveCancellable(c)
+	dispatchDoneLast(c)
 }
 
 // ------------------------------------------------------------------------------------------------
